@@ -55,7 +55,9 @@ pub fn gen_plan(seed: u64, run: u64, _tier: &str) -> Plan {
     cfg.cache_cap = *rng.pick(&[1usize, 2, 2, 8]);
     cfg.hot_hard = *rng.pick(&[1usize, 2, 2, 200]);
     cfg.hot_soft = *rng.pick(&[1usize, 2, 100]);
-    cfg.capacity = 1000;
+    // a third of the programs run on a tiny index that the sequential prefix fills up (superseded versions included),
+    // so that the clients' overwrites go through tombstone compaction and the retry inside insert
+    cfg.capacity = *rng.pick(&[1000usize, 1000, 2, 3, 4]);
     cfg.snap_interval = *rng.pick(&[0usize, 3, 1000]);
     let universe = rng.range(1, 2);
     let mut n = 0u64;
@@ -66,7 +68,10 @@ pub fn gen_plan(seed: u64, run: u64, _tier: &str) -> Plan {
         meta.insert("w".to_string(), n.to_string());
         ApiOp::Insert { id, vec: bits(&write_vec(cfg.dim, n, scale)), meta }
     };
-    let mut gen_client_op = |rng: &mut Rng| -> ApiOp {
+    let mut gen_client_op = |rng: &mut Rng, forced_write: Option<u64>| -> ApiOp {
+        if let Some(id) = forced_write {
+            return mk_write(rng, id);
+        }
         let id = rng.below(universe);
         match rng.below(100) {
             0..=29 => mk_write(rng, id),
@@ -79,9 +84,15 @@ pub fn gen_plan(seed: u64, run: u64, _tier: &str) -> Plan {
         }
     };
     let n_pre = rng.range(0, 3);
-    let pre: Vec<ApiOp> = (0..n_pre).map(|_| gen_client_op(&mut rng)).collect();
+    let mut pre: Vec<ApiOp> = (0..n_pre).map(|_| gen_client_op(&mut rng, None)).collect();
+    if cfg.capacity < 1000 {
+        let fill = cfg.capacity as u64 - rng.below(2);
+        for i in 0..fill {
+            pre.push(gen_client_op(&mut rng, Some(i % universe)));
+        }
+    }
     let n_threads = if rng.chance(2, 3) { 2 } else { 3 };
-    let mut threads: Vec<Vec<ApiOp>> = (0..n_threads).map(|_| (0..rng.range(2, 4)).map(|_| gen_client_op(&mut rng)).collect()).collect();
+    let mut threads: Vec<Vec<ApiOp>> = (0..n_threads).map(|_| (0..rng.range(2, 4)).map(|_| gen_client_op(&mut rng, None)).collect()).collect();
     let final_flush = rng.chance(1, 2);
     // background work next to the clients in a third of the programs: a thread that drains the recent-write tier
     // (no register operation of its own; whatever it does must stay invisible to the clients' reads)
